@@ -60,7 +60,8 @@ var fieldPool = []struct {
 	Go   string
 	Tags []string
 }{
-	{"int", []string{"", "default:7", "column:{c}"}}, {"int8", []string{"", "default:-3"}}, {"int16", []string{""}},
+	{"int", []string{"", "default:7", "column:{c}"}}, {"int64", []string{"default:(abs(-42))", "default:(length('abc'))"}},
+	{"string", []string{"default:(lower('GEN'))"}}, {"int8", []string{"", "default:-3"}}, {"int16", []string{""}},
 	{"int32", []string{"", "autoUpdateTime"}}, {"int64", []string{"", "autoCreateTime:nano", "autoCreateTime:milli", "autoUpdateTime:milli", "serializer:unixtime;type:datetime", "column:{c}"}},
 	{"uint", []string{"", "serializer:unixtime;type:datetime"}}, {"uint8", []string{"", "default:200"}}, {"uint16", []string{""}},
 	{"uint32", []string{""}}, {"uint64", []string{"", "autoUpdateTime:nano"}},
